@@ -1330,9 +1330,11 @@ class Vars:
             if not isinstance(values, (np.ndarray, Real)):
                 raise TypeError('The second argument must be numerical values.')
 
-            values = np.array(values, dtype=float) + np.zeros(self.shape, dtype=float)
+            # a slice of a random variable takes values of the slice's shape
+            shape = self.to_affine().shape
+            values = np.array(values, dtype=float) + np.zeros(shape, dtype=float)
 
-            return RandVal(self, values.reshape(self.shape))
+            return RandVal(self, values.reshape(shape))
 
     def __call__(self):
 
@@ -3072,7 +3074,7 @@ class RoAffine:
             if arg.rvar.model is not self.rand_model:
                 raise ValueError('Models mismatch.')
 
-            index = range(arg.rvar.first, arg.rvar.last)
+            index = arg.rvar.get_ind().ravel()
             rvec[index] = arg.values.ravel()
 
         raffine_value = self.raffine()
@@ -3936,9 +3938,10 @@ class RandVar(Vars):
         if not isinstance(values, (np.ndarray, Real)):
             raise TypeError('The second argument does not provide numerical values.')
 
+        shape = self.to_affine().shape
         if not sw:
-            values = np.array(values, dtype=float) + np.zeros(self.shape, dtype=float)
-            values = values.reshape(self.shape)
+            values = np.array(values, dtype=float) + np.zeros(shape, dtype=float)
+            values = values.reshape(shape)
         else:
             if isinstance(values, pd.Series):
                 values = values.values
@@ -3946,7 +3949,7 @@ class RandVar(Vars):
             value_list = []
             for i in range(self.model.top.num_scen):
                 value = np.array(values[i], dtype=float)
-                value += np.zeros(self.shape, dtype=float)
+                value += np.zeros(shape, dtype=float)
                 value_list.append(value)
             values = pd.Series(value_list, index=self.model.top.series_scen.index)
 
@@ -5033,7 +5036,7 @@ class DecRoAffine(RoAffine):
             if not isinstance(arg, RandVal):
                 raise TypeError('Unsupported type for defining random variable values.')
 
-            index = range(arg.rvar.first, arg.rvar.last)
+            index = arg.rvar.get_ind().ravel()
             # rvec[index] = arg.values.ravel()
             if not arg.sw:
                 rvecs.loc[:, index] = arg.values.ravel()
